@@ -131,21 +131,26 @@ Definition bolt_own_decode (chk : bool) (v2 : bool) (v : view) : M (bolt_cmd * N
     else fail ERR_CMDTYPE
   else need_more.
 
-(* boltProtocol.Decode: first byte 0x02 -> the boltv2 engine; boltv2Protocol.Decode: first byte bolt.ProtocolCode -> the bolt engine *)
-Definition bolt_decode_sw (chk : bool) (v : view) : M (bolt_cmd * N) :=
+(* boltProtocol.Decode: first byte 0x02 -> the boltv2 engine; boltv2Protocol.Decode: first byte bolt.ProtocolCode -> the bolt engine.
+   gate_first (Gen/CodecSrc.v bolt_gate_first, read from the source): false = the code in the tree, the version switch on the
+   first byte comes first and each engine applies its own LessLen afterwards; true = `if data.Len() < LessLen { return nil, nil }`
+   in FRONT of the switch - then the boltv2 entry holds back a complete 20- or 21-byte v1 response (boltv2 LessLen is 22). *)
+Definition bolt_decode_sw (chk gate_first : bool) (v : view) : M (bolt_cmd * N) :=
+  if gate_first && (vlen v <? bolt_LessLen) then need_more else
   match vb v with
   | c :: _ => if c =? 2 then bolt_own_decode chk true v else bolt_own_decode chk false v
   | [] => bolt_own_decode chk false v
   end.
-Definition boltv2_decode_sw (chk : bool) (v : view) : M (bolt_cmd * N) :=
+Definition boltv2_decode_sw (chk gate_first : bool) (v : view) : M (bolt_cmd * N) :=
+  if gate_first && (vlen v <? boltv2_LessLen) then need_more else
   match vb v with
-  | c :: _ => if c =? bolt_ProtocolCode then bolt_decode_sw chk v else bolt_own_decode chk true v
+  | c :: _ => if c =? bolt_ProtocolCode then bolt_decode_sw chk gate_first v else bolt_own_decode chk true v
   | [] => bolt_own_decode chk true v
   end.
 
 (* the code in the tree *)
-Definition bolt_decode : view -> M (bolt_cmd * N) := bolt_decode_sw xp_hdr_checked.
-Definition boltv2_decode : view -> M (bolt_cmd * N) := boltv2_decode_sw xp_hdr_checked.
+Definition bolt_decode : view -> M (bolt_cmd * N) := bolt_decode_sw xp_hdr_checked bolt_gate_first.
+Definition boltv2_decode : view -> M (bolt_cmd * N) := boltv2_decode_sw xp_hdr_checked bolt_gate_first.
 
 (* ---- framer for the dispatch loop (Lib/Seg.v) ------------------------------------------------
    (frame, nil) -> handleFrame;  (nil, nil) -> wait;  (nil, err) -> close;
